@@ -125,20 +125,36 @@ def r1(ctx, F):
                       "freeze_impl no longer copies every heap reference of the unfrozen heap into the frozen heap "
                       "before freezing (values loaded from other modules dangle after those modules are dropped)",
                       fn=f)
-    # add_reference bodies insert on every path where the heap is not yet present
+    # add_reference bodies: the only ways to return without inserting are "already present" and "the null heap
+    # (static values) is being referenced"
+    from kern import bool_call_edges, switch_info, enum_variant_names
     for pat in (r"heap_type::Heap::<'v>::add_reference$", r"heap_type::FrozenHeap::add_reference$"):
         f = F.one(pat)
         cont = [c for c in f.calls if re.search(r"SmallSet::<T>::contains$", c.name)]
         ins = [c for c in f.calls if re.search(r"SmallSet::<T>::insert$", c.name)]
         good = False
         if cont and ins:
-            from kern import bool_call_edges
-            fe = bool_call_edges(F, f, cont[0], "false")
-            good = bool(fe) and all(
-                not (set(f.returns()) & f.reach([b], cut_blocks={c.bb for c in ins})) for (_, b) in fe)
+            allowed = set(bool_call_edges(F, f, cont[0], "true"))
+            # `heap.0.is_none()`: the None edge of a switch on the Option inside the FrozenHeapRef argument
+            for b in f.terms:
+                info = switch_info(f, b)
+                if info and info["kind"] == "enum" and info["place"] and "{values::layout::heap::heap_type::FrozenHeapRef::0}" in info["place"]:
+                    names = enum_variant_names(F, info["ty"])
+                    for v, t in info["targets"].items():
+                        if names.get(v) == "None":
+                            allowed.add((b, t))
+                    if "None" in names.values() and not any(names.get(v) == "None" for v in info["targets"]):
+                        allowed.add((b, info["otherwise"]))
+            isn = [c for c in f.calls if re.search(r"Option::<T>::is_none$", c.name)]
+            for c in isn:
+                allowed |= bool_call_edges(F, f, c, "true")
+            r = f.reach(0, cut_blocks={c.bb for c in ins}, cut_edges=allowed)
+            good = not (set(f.returns()) & r)
         ctx.check(good, "C13.R1", "add_reference-inserts:" + f.qpath.split("heap_type::")[1],
-                  "when the set does not contain the heap, insert is called on every path",
-                  "add_reference can return without recording the reference", fn=f)
+                  "every path returns through insert, the already-present edge or the null-heap edge",
+                  "add_reference can return without recording the reference for a reason other than 'already "
+                  "present' / 'null heap' (e.g. a size test): a heap that only forwards references to other heaps "
+                  "would be dropped from the dependency chain", fn=f)
 
 
 def r2(ctx, F):
